@@ -199,7 +199,12 @@ class Dataset(AbstractDataset, dict, OpMixin, GetSetDelAttrMixin):
         val._axes = copy.deepcopy(val.axes)
 
         # Check dimensions
-        # make sure axes match those of the dataset
+        # first make sure all axes match those of the dataset, before modifying it
+        for newaxis in val.axes:
+            if newaxis.name in self.dims and not newaxis == self.axes[newaxis.name]:
+                raise ValueError("axes values do not match, align data first.\
+                        \nDataset: {}, \nGot: {}".format(self.axes[newaxis.name], newaxis))
+
         for i, newaxis in enumerate(val.axes):
 
             # Check dimensions if already existing axis
